@@ -221,9 +221,14 @@ def _introspect_fun(
         #     f"{fun_path} in cache, evaluating if {len(dep_paths)} python objects have changed"
         # )
         ids: List[Tuple[CanonicalPath, PythonId]] = []
-        for dep_path in dep_paths:
-            obj = ObjectRetrieval.retrieve_object_global(dep_path, gctx)
-            ids.append((dep_path, PythonId(id(obj))))
+        try:
+            for dep_path in dep_paths:
+                obj = ObjectRetrieval.retrieve_object_global(dep_path, gctx)
+                ids.append((dep_path, PythonId(id(obj))))
+        except DDSException:
+            # A dependency recorded by a previous evaluation does not exist anymore (the code has
+            # changed since): this is a cache miss, not an error.
+            ids = []
         tup = tuple(ids)
         if (fun_path, arg_ctx_hash, tup) in _global_context.cached_fun_interactions:
             # _logger.debug(
